@@ -216,7 +216,7 @@ func (t *tracer) disciplined() bool {
 			} else if pl := len(inv.events[lastAdd].l.LayerPayload()); pl >= inv.inLen && inv.inLen > 0 {
 				// hands on at least its whole input (a zero-length header, or RadioTap appending an FCS):
 				// inside DM μ for a measure ranking this decoder above its callee
-				// (Gp.C03.zero_progress_hop) unless a decoder is re-entered — checked below; counted
+				// (Gp.C03.zero_progress_hop) unless a decoder is re-entered on a not-shorter input (checked above); counted
 				t.hops = append(t.hops, inv.name+"->"+e.name)
 			}
 		}
